@@ -28,6 +28,14 @@
  *                   Prints rc, number of callback calls, whether *dst is NULL, and on success
  *                   equal both ways, dumps, node counts, shared addresses, identical
  *                   serializations (of 6), tags found on the copy; live blocks at the end.
+ *   B <a> <conds> <mut>  the source is built with the members selected by conds (cond;...,
+ *                   same atoms as above, evaluated on the member's value node) added with
+ *                   JSON_C_OBJECT_ADD_CONSTANT_KEY from exact-size heap buffers owned by the
+ *                   driver.  Deep copy; key pointers (lh_entry_k) of the copy compared with
+ *                   those of the source and with the driver's buffers; the buffers modified in
+ *                   place; the source destroyed and the buffers poisoned and freed; after each
+ *                   step the copy is dumped, serialized, looked up key by key and compared
+ *                   with an independently built tree; finally mut is applied to the copy.
  * mut = <path>:<op>, path = (/i<idx> | /k<hexkey|->)*,
  * op = A<jv> | P<hexkey|->=<jv> | K<hexkey|-> | I<dec> | U<dec> | B<0|1> | S<hex|-> | D<16hex>
  *    | Z<idx>=<jv> (array_put_idx) | X<idx>,<count> (array_del_idx).
@@ -444,6 +452,176 @@ static void run_cb_copy(char *sa, const char *rules, const char *tags)
 	reset_globals(); printf(" | live=%ld", xa_live);
 }
 
+/* ---- members whose names live in driver-owned memory ---- */
+static struct { char *p; size_t len; } kb[8192];
+static size_t nkb;
+
+static struct json_object *build_ck(const char **p, int depth, long *counter, const char *conds, int *err)
+{
+	char c = **p;
+	if (c == 'n') { (*p)++; return NULL; }
+	(*counter)++;
+	if (c == '[') {
+		struct json_object *a = json_object_new_array();
+		(*p)++;
+		if (**p == ']') { (*p)++; return a; }
+		for (;;) {
+			struct json_object *v = build_ck(p, depth + 1, counter, conds, err);
+			if (json_object_array_add(a, v) != 0) { *err = 1; json_object_put(v); }
+			if (**p == ',') { (*p)++; continue; }
+			if (**p == ']') { (*p)++; return a; }
+			*err = 2; return a;
+		}
+	}
+	if (c == '{') {
+		struct json_object *o = json_object_new_object();
+		(*p)++;
+		if (**p == '}') { (*p)++; return o; }
+		for (;;) {
+			size_t n; unsigned char *k = jv_hexordash(p, &n);
+			struct json_object *v;
+			struct node_ctx ctx;
+			if (**p != '=') { *err = 2; (free)(k); return o; }
+			(*p)++;
+			ctx.callno = (**p == 'n') ? -1 : *counter;
+			v = build_ck(p, depth + 1, counter, conds, err);
+			ctx.type = type_char(v); ctx.ptype = 'o'; ctx.depth = depth + 1; ctx.idx = -1; ctx.key = (const char *)k;
+			if (nkb < 8192 && eval_rules(conds, 0, &ctx) == 'y') {
+				char *buf = (char *)(malloc)(n + 1);          /* exact size: ASan sees any later use */
+				memcpy(buf, k, n + 1);
+				kb[nkb].p = buf; kb[nkb].len = n; nkb++;
+				if (json_object_object_add_ex(o, buf, v, JSON_C_OBJECT_ADD_CONSTANT_KEY) != 0) { *err = 1; json_object_put(v); }
+			} else if (json_object_object_add(o, (char *)k, v) != 0) { *err = 1; json_object_put(v); }
+			(free)(k);
+			if (**p == ',') { (*p)++; continue; }
+			if (**p == '}') { (*p)++; return o; }
+			*err = 2; return o;
+		}
+	}
+	return jv_parse(p, err);
+}
+
+struct kset { const void **v; unsigned char *is_const; size_t n, cap; };
+static void collect_keys(struct json_object *o, struct kset *s)
+{
+	if (!o) return;
+	if (json_object_get_type(o) == json_type_array) {
+		size_t i, n = json_object_array_length(o);
+		for (i = 0; i < n; i++) collect_keys(json_object_array_get_idx(o, i), s);
+	} else if (json_object_get_type(o) == json_type_object) {
+		struct lh_entry *e;
+		for (e = json_object_get_object(o)->head; e; e = e->next) {
+			if (s->n == s->cap) {
+				s->cap = s->cap ? s->cap * 2 : 64;
+				s->v = (const void **)(realloc)(s->v, s->cap * sizeof(*s->v));
+				s->is_const = (unsigned char *)(realloc)(s->is_const, s->cap);
+			}
+			s->v[s->n] = lh_entry_k(e); s->is_const[s->n] = lh_entry_k_is_constant(e) ? 1 : 0; s->n++;
+			collect_keys((struct json_object *)lh_entry_v(e), s);
+		}
+	}
+}
+
+/* every member of ref looked up by name in the corresponding object of o */
+static void lookup_walk(struct json_object *ref, struct json_object *o, long *found, long *total)
+{
+	if (!ref || !o) return;
+	if (json_object_get_type(ref) == json_type_array && json_object_get_type(o) == json_type_array) {
+		size_t i, n = json_object_array_length(ref);
+		for (i = 0; i < n && i < json_object_array_length(o); i++)
+			lookup_walk(json_object_array_get_idx(ref, i), json_object_array_get_idx(o, i), found, total);
+	} else if (json_object_get_type(ref) == json_type_object && json_object_get_type(o) == json_type_object) {
+		struct lh_entry *e;
+		for (e = json_object_get_object(ref)->head; e; e = e->next) {
+			struct json_object *sub = NULL;
+			(*total)++;
+			if (json_object_object_get_ex(o, (const char *)lh_entry_k(e), &sub)) {
+				(*found)++;
+				lookup_walk((struct json_object *)lh_entry_v(e), sub, found, total);
+			}
+		}
+	}
+}
+
+/* dump, lookups, comparison with the reference tree, serialization against the saved texts */
+static void observe_copy(struct json_object *c, struct json_object *ref, char *const saved[2], const size_t savedlen[2])
+{
+	long found = 0, total = 0;
+	int i, same = 0;
+	eq_dump(c);
+	lookup_walk(ref, c, &found, &total);
+	printf(" %ld/%ld %d %d", found, total, json_object_equal(c, ref), json_object_equal(ref, c));
+	for (i = 0; i < 2; i++) {
+		size_t l = 0;
+		const char *t = json_object_to_json_string_length(c, FLAGS[i + 1], &l);
+		if (t && l == savedlen[i] && memcmp(t, saved[i], l) == 0) same++;
+	}
+	printf(" %d", same);
+}
+
+static void run_keys(char *sa, const char *conds, const char *mut)
+{
+	const char *p = sa;
+	long counter = 0;
+	int err = 0, rc, i;
+	struct json_object *src, *ref, *c = NULL;
+	struct kset ks = {0}, kc = {0};
+	size_t j, q, nconst_src = 0, kshared = 0, kinbuf = 0, kconst = 0;
+	char *saved[2] = {0}; size_t savedlen[2] = {0};
+	nkb = 0;
+	src = build_ck(&p, 0, &counter, conds, &err);
+	if (err || *p) printf("BADTREE ");
+	ref = parse_tree(sa);                       /* the same value, built with ordinary members */
+	errno = 0;
+	rc = json_object_deep_copy(src, &c, NULL);
+	if (rc < 0) {
+		printf("B %d %s", rc, errno_name(errno));
+		json_object_put(c); json_object_put(src); json_object_put(ref);
+		for (j = 0; j < nkb; j++) (free)(kb[j].p);
+		reset_globals(); printf(" | live=%ld", xa_live);
+		return;
+	}
+	printf("B %d %d %d ", rc, json_object_equal(src, c), json_object_equal(c, src));
+	eq_dump(src); putchar(' '); eq_dump(c);
+	collect_keys(src, &ks); collect_keys(c, &kc);
+	for (j = 0; j < ks.n; j++) nconst_src += ks.is_const[j];
+	for (j = 0; j < kc.n; j++) {
+		kconst += kc.is_const[j];
+		for (q = 0; q < ks.n; q++) if (kc.v[j] == ks.v[q]) { kshared++; break; }
+		for (q = 0; q < nkb; q++)
+			if ((const char *)kc.v[j] >= kb[q].p && (const char *)kc.v[j] <= kb[q].p + kb[q].len) { kinbuf++; break; }
+	}
+	printf(" %zu %zu %zu %zu %zu", nkb, nconst_src, kshared, kinbuf, kconst);
+	(free)(ks.v); (free)(ks.is_const); (free)(kc.v); (free)(kc.is_const);
+	if ((kshared || kinbuf || kconst) && !getenv("EQ_KEYS_GO_ON")) {
+		/* the copy does not own its names: going on would only read freed memory
+		 * (EQ_KEYS_GO_ON=1 goes on nevertheless: used to validate the later steps) */
+		printf(" | SHARED");
+		json_object_put(c); json_object_put(src); json_object_put(ref);
+		for (j = 0; j < nkb; j++) (free)(kb[j].p);
+		reset_globals(); printf(" | live=%ld", xa_live);
+		return;
+	}
+	for (i = 0; i < 2; i++) {
+		size_t l = 0;
+		const char *t = json_object_to_json_string_length(c, FLAGS[i + 1], &l);
+		saved[i] = (char *)(malloc)(l + 1); memcpy(saved[i], t, l); savedlen[i] = l;
+	}
+	/* the caller modifies its buffers in place (the source's names change with them) */
+	for (j = 0; j < nkb; j++) if (kb[j].len) kb[j].p[0] = kb[j].p[0] == 'Z' ? 'Y' : 'Z';
+	printf(" | I "); eq_dump(src); putchar(' ');
+	observe_copy(c, ref, saved, savedlen);
+	/* the source goes away, and with it the caller's obligation to keep the buffers */
+	printf(" | F %d ", json_object_put(src));
+	for (j = 0; j < nkb; j++) { memset(kb[j].p, 0xAA, kb[j].len + 1); (free)(kb[j].p); }
+	observe_copy(c, ref, saved, savedlen);
+	i = mutate(c, mut);
+	printf(" | P %s ", i ? "ok" : "bad"); eq_dump(c);
+	json_object_put(c); json_object_put(ref);
+	(free)(saved[0]); (free)(saved[1]);
+	reset_globals(); printf(" | live=%ld", xa_live);
+}
+
 void run_case(char *rest)
 {
 	char *tok[7] = {0}, *save = NULL, *t;
@@ -503,6 +681,8 @@ void run_case(char *rest)
 		}
 		json_object_put(a); json_object_put(b); json_object_put(c);
 		reset_globals(); printf(" | live=%ld", xa_live);
+	} else if (n == 4 && !strcmp(tok[0], "B")) {
+		run_keys(tok[1], tok[2], tok[3]);
 	} else if (n == 4 && !strcmp(tok[0], "Y")) {
 		run_cb_copy(tok[1], tok[2], tok[3]);
 	} else if (n == 3 && !strcmp(tok[0], "C")) {
